@@ -127,6 +127,26 @@ impl C10 {
             // observed worst-case steps per input byte, in 1/1000ths
             cx.max("max.steps_per_kbyte", (ctr[verif::GDS_NEXT] + ctr[verif::GDS_RECORD]) * 1000 / bytes.len() as u64);
         }
+        // equivalent entry point: every 8th input is also read from a file (always the same path, rewritten each time) through GdsLibrary::open;
+        // the two must agree - both reject, or both return the same library
+        if cx.rec.evaluations % 8 == 0 {
+            let path = cx.tmp("c10-entry.gds");
+            if std::fs::write(&path, bytes).is_ok() {
+                let fr = guard(|| GdsLibrary::open(&path));
+                cx.count("file_entry_compared");
+                match (&r, &fr) {
+                    (_, Err(c)) => cx.violation(&format!("{}|file-entry|panic|{}|{}", class, c.site(), c.norm_msg()), json!({"panic": c.msg, "len": bytes.len(), "bytes": render_bytes(bytes)})),
+                    (Ok(Ok(a)), Ok(Ok(b))) => {
+                        if let Some((c2, at)) = lib_diff(a, b) {
+                            cx.violation(&format!("{}|file-entry|differs-from-bytes|{}", class, c2), json!({"at": at, "len": bytes.len(), "bytes": render_bytes(bytes)}));
+                        }
+                    }
+                    (Ok(Err(_)), Ok(Ok(_))) => cx.violation(&format!("{}|file-entry|accepted-what-from_bytes-rejected", class), json!({"len": bytes.len(), "bytes": render_bytes(bytes)})),
+                    (Ok(Ok(_)), Ok(Err(e))) => cx.violation(&format!("{}|file-entry|rejected-what-from_bytes-accepted|{}", class, err_class(e)), json!({"len": bytes.len(), "bytes": render_bytes(bytes)})),
+                    _ => {}
+                }
+            }
+        }
         match r {
             Err(c) if c.is_budget() => cx.violation(
                 &format!("{}|step-budget-exceeded", class),
@@ -212,7 +232,48 @@ impl C10 {
             cx.count("seed_stream_rejected");
         }
     }
+    /// History on one path: the valid stream is opened from a file, the file is then rewritten IN PLACE with a same-length faulted stream and its
+    /// modification time put back (as `cp -p`, `rsync -t` or two writes within one timestamp tick leave it), and opened again.
+    /// What `open` returns must still be what `from_bytes` makes of the bytes now in the file.
+    fn same_path_history(&self, cx: &mut Cx, bytes: &[u8], offsets: &[usize], class: &str) {
+        let path = cx.tmp("c10-history.gds");
+        if std::fs::write(&path, bytes).is_err() {
+            return;
+        }
+        let mtime = std::fs::metadata(&path).and_then(|m| m.modified()).ok();
+        let first = guard(|| GdsLibrary::open(&path));
+        if !matches!(first, Ok(Ok(_))) {
+            return;
+        }
+        for k in 0..4 {
+            // same length: one record's type byte replaced (ENDLIB -> BGNSTR, a random record -> ENDEL / garbage)
+            let mut v = bytes.to_vec();
+            let i = if k == 0 { offsets.len() - 1 } else { cx.rng.usize(offsets.len()) };
+            v[offsets[i] + 2] = [0x05u8, 0x11, 0x7F, 0x00][k];
+            if v == bytes || std::fs::write(&path, &v).is_err() {
+                continue;
+            }
+            if let (Some(t), Ok(f)) = (mtime, std::fs::OpenOptions::new().write(true).open(&path)) {
+                let _ = f.set_modified(t);
+            }
+            cx.eval();
+            cx.count("same_path_rewrites");
+            let (a, b) = (guard(|| GdsLibrary::from_bytes(&v)), guard(|| GdsLibrary::open(&path)));
+            let same = match (&a, &b) {
+                (Ok(Ok(x)), Ok(Ok(y))) => lib_diff(x, y).is_none(),
+                (Ok(Err(_)), Ok(Err(_))) => true,
+                (Err(_), Err(_)) => true,
+                _ => false,
+            };
+            if !same {
+                cx.violation(&format!("{}|file-entry|stale-or-different-after-in-place-rewrite", class), json!({"from_bytes_ok": matches!(a, Ok(Ok(_))), "open_ok": matches!(b, Ok(Ok(_))), "bytes": render_bytes(&v)}));
+                break;
+            }
+        }
+        let _ = std::fs::remove_file(&path);
+    }
     fn record_faults(&self, cx: &mut Cx, bytes: &[u8], offsets: &[usize], class: &str) {
+        self.same_path_history(cx, bytes, offsets, class);
         let mut st = Stats::default();
         let nrec = offsets.len();
         let rec_end = |i: usize| if i + 1 < nrec { offsets[i + 1] } else { bytes.len() };
